@@ -207,11 +207,13 @@ int main(int argc, char** argv) {
 	std::set_terminate(on_terminate);
 	for(int s : {SIGSEGV, SIGBUS, SIGFPE, SIGABRT, SIGILL}) std::signal(s, on_signal);
 	std::signal(SIGALRM, on_alarm);
+#if !defined(__SANITIZE_ADDRESS__)  // ASan reserves terabytes of address space for its shadow memory
 	{
 		struct rlimit rl;
 		rl.rlim_cur = rl.rlim_max = static_cast<rlim_t>(3) << 30;  // 3 GiB of address space per worker: a corrupted size must fail fast
 		setrlimit(RLIMIT_AS, &rl);
 	}
+#endif
 	W.init();
 	g_primary->setup();
 	g_crash.binary = g_binary_name;
